@@ -206,7 +206,7 @@ fn variants(text: &str) -> Vec<(&'static str, String)> {
 // One-hole contexts over the whole expression grammar; a template is one context or the
 // composition of two, and its family member of depth k is the template applied k times to a leaf.
 // `#` in a context is replaced by the nesting level, so binders do not clash.
-pub const CONTEXTS: [&str; 36] = [
+pub const CONTEXTS: [&str; 41] = [
     "(@)",
     "f (@) y",
     "f (@)",
@@ -243,6 +243,14 @@ pub const CONTEXTS: [&str; 36] = [
     "f (a# = @; a#)",
     "f (@",
     "@) y",
+    // groups of several definitions whose body goes on nesting through an operator, alone and
+    // inside a definition that is not a value (the definition-order check computes the free
+    // variables of such definitions)
+    "(a# = 1; b# = 2; c# = 3; a# + (@))",
+    "r# = 0 + (@); r#",
+    "r# = 0 + (a# = 1; b# = 2; c# = 3; a# + (@)); r#",
+    "r# = f (a# : int = 1; b# : int = a#; @); r#",
+    "(a# : int = 1; b# : int = @; a# + b#)",
 ];
 
 pub fn template_count(tier: Tier) -> u64 {
